@@ -15,10 +15,10 @@ mkdir -p $scratch/MUTANT && cp seeded/$name/demo.py $scratch/MUTANT/
 git -C /repo worktree remove --force $scratch
 # run the check against /repo with the patch applied
 git -C /repo apply /verif/seeded/$name/patch.diff || { echo "PATCH DOES NOT APPLY"; exit 1; }
-out=$(./check $prop quick 2>&1 | grep -E "^(OK|VIOLATION|KNOWN|  failing|  broken|  disagreement|INFRA)" | cut -c1-260 | head -6)
+out=$(timeout 900 ./check $prop quick 2>&1 | grep -E "^(OK|VIOLATION|KNOWN|  failing|  broken|  disagreement|INFRA)" | cut -c1-260 | head -6)
 echo "--- quick:"; echo "$out"
 if echo "$out" | grep -q "^OK"; then
-  out2=$(./check $prop thorough 2>&1 | grep -E "^(OK|VIOLATION|KNOWN|  failing|  broken|  disagreement|INFRA)" | cut -c1-260 | head -6)
+  out2=$(timeout 1500 ./check $prop thorough 2>&1 | grep -E "^(OK|VIOLATION|KNOWN|  failing|  broken|  disagreement|INFRA)" | cut -c1-260 | head -6)
   echo "--- thorough:"; echo "$out2"
 fi
 git -C /repo checkout -- .
